@@ -7,6 +7,7 @@ package main
 import (
 	"go/ast"
 	"go/types"
+	"sort"
 	"strings"
 
 	"golang.org/x/tools/go/types/typeutil"
@@ -187,6 +188,7 @@ func checkC08(c *Check) {
 			if prot == "" {
 				prot = "p1"
 			}
+			extraLabels := map[string]bool{}
 			want := []struct {
 				key, val, what string
 				guard          *LP
@@ -195,8 +197,27 @@ func checkC08(c *Check) {
 				{prot + "[" + t.labelMap + "[" + req + ".SigningScheme]]", "(github.com/fxamacker/cbor/v2.EncMode).Marshal(" + t.enc + ", " + req + ".SigningTime)#0", "signing time under the scheme's label", nil},
 				{prot + "[" + hExpiry + "]", "(github.com/fxamacker/cbor/v2.EncMode).Marshal(" + t.enc + ", " + req + ".Expiry)#0", "expiry", ptr(A("-TZero(" + req + ".Expiry)"))},
 			}
-			for _, w := range want {
+			rows := constMapRows(c.P, t.labelMap)
+			for wi, w := range want {
 				st := isStoreOf(w.key, func(k string) bool { return k == w.val })
+				if wi == 1 && len(rows) > 0 && len(edgeSources(pg, st)) == 0 {
+					// the writer does not index the table but compares the scheme with its keys one by
+					// one: row by row, a path for that scheme stores the time under the row's label,
+					// and a row's label is written only for that row's scheme
+					for ri, r := range rows {
+						under := isStoreOf(prot+"["+r[1]+"]", func(k string) bool { return k == w.val })
+						alts := []LP{under, A("-Eq(" + r[0] + ", " + req + ".SigningScheme)")}
+						for oi, o := range rows {
+							if oi != ri {
+								alts = append(alts, A("+Eq("+o[0]+", "+req+".SigningScheme)"))
+							}
+						}
+						c.mustPass(pg, "O-C08.3", "COSE writer stores the "+w.what+" under the reader's label (scheme "+r[0]+")", "building the protected header", ok, AnyOf(alts...))
+						c.mustPass(pg, "O-C08.3", "COSE time label "+r[1]+" written only under scheme "+r[0], "writing the time header "+r[1], edgeSources(pg, isStoreOf(prot+"["+r[1]+"]", nil)), A("+Eq("+r[0]+", "+req+".SigningScheme)"))
+						extraLabels[strings.Trim(r[1], "\"")] = true
+					}
+					continue
+				}
 				lp := st
 				if w.guard != nil {
 					lp = AnyOf(A("+TZero("+req+".Expiry)"), st)
@@ -220,7 +241,12 @@ func checkC08(c *Check) {
 				wl = append(wl, k)
 			}
 			c.Tables["cose_constant_labels_written"] = sortedCopy(wl)
-			okW := written[hScheme] && written[hExpiry] && written["2"] && len(written) == 3
+			okW := written[hScheme] && written[hExpiry] && written["2"]
+			for k := range written {
+				if k != hScheme && k != hExpiry && k != "2" && !extraLabels[strings.Trim(k, "\"")] {
+					okW = false
+				}
+			}
 			c.add("O-C08.3", "COSE writer's constant labels", "the header generator writes exactly the constant labels signingScheme, expiry and crit (the time label comes from the scheme->label map, alg and content type are set by Sign)", okW, "", strings.Join(sortedCopy(wl), ","))
 		}
 	}
@@ -403,9 +429,12 @@ func opaquePayloadOnVerify(c *Check, fmts []format) {
 							has[strings.TrimPrefix(a.Name, jwtPkg+".")] = true
 						}
 						c.add("O-C08.4", "JWS verification does not interpret the payload as JWT claims", "the JWT parser used by Verify is built with WithoutClaimsValidation (otherwise a signed payload with a member exp/nbf/iat fails to verify)", has["WithoutClaimsValidation"], where, "parser: "+parser.Key())
+						c.add("O-C08.4", "JWS verification decodes payload numbers losslessly", "the JWT parser used by Verify is built with WithJSONNumber (otherwise a signed payload holding a number beyond float64, e.g. 1e400, fails to verify although Sign accepted it)", has["WithJSONNumber"], where, "parser: "+parser.Key())
 					case parser.Op == "addr" && len(parser.Args) == 1 && parser.Args[0].Op == "struct":
 						v := structGet(parser.Args[0], "SkipClaimsValidation")
 						c.add("O-C08.4", "JWS verification does not interpret the payload as JWT claims", "the JWT parser used by Verify has SkipClaimsValidation set", v != nil && v.Key() == "true", where, "parser: "+parser.Key())
+						un := structGet(parser.Args[0], "UseJSONNumber")
+						c.add("O-C08.4", "JWS verification decodes payload numbers losslessly", "the JWT parser used by Verify has UseJSONNumber set", un != nil && un.Key() == "true", where, "parser: "+parser.Key())
 					default:
 						c.undecided("O-C08.4", "JWS verification does not interpret the payload as JWT claims", "the JWT parser's construction is not recognised: "+parser.Key(), where)
 					}
@@ -563,4 +592,41 @@ func writesLabel33(fs *FuncSrc) bool {
 		return true
 	})
 	return writes
+}
+
+// constMapRows: the (key, value) rows of a package-level map with a literal of
+// constants that is never written (sorted by key); nil if it is not one.
+func constMapRows(p *Prog, global string) [][2]string {
+	for _, pk := range p.Pkgs {
+		if !isProductPkg(pk.PkgPath, p.ModPath) || pk.Types == nil {
+			continue
+		}
+		sc := pk.Types.Scope()
+		for _, nm := range sc.Names() {
+			v, ok := sc.Lookup(nm).(*types.Var)
+			if !ok || p.abbrev(pk.PkgPath)+"."+nm != global || !p.neverWritten(v) {
+				continue
+			}
+			cl, ok := ast.Unparen(findInit(pk.Syntax, pk.TypesInfo, v)).(*ast.CompositeLit)
+			if !ok {
+				return nil
+			}
+			var rows [][2]string
+			for _, e := range cl.Elts {
+				kv, ok := e.(*ast.KeyValueExpr)
+				if !ok {
+					return nil
+				}
+				ktv, kok := pk.TypesInfo.Types[kv.Key]
+				vtv, vok := pk.TypesInfo.Types[kv.Value]
+				if !kok || !vok || ktv.Value == nil || vtv.Value == nil {
+					return nil
+				}
+				rows = append(rows, [2]string{constTerm(ktv.Value).Key(), constTerm(vtv.Value).Key()})
+			}
+			sort.Slice(rows, func(i, j int) bool { return rows[i][0] < rows[j][0] })
+			return rows
+		}
+	}
+	return nil
 }
